@@ -669,9 +669,13 @@ func (g *gen) groupSplit() {
 		if g.tier != "thorough" {
 			step = 1 + len(edges)/600
 		}
-		for i := g.r.Intn(step); i < len(edges); i += step {
+		off := g.r.Intn(step)
+		for i := 0; i < len(edges); i++ {
 			c := rune(edges[i])
 			if c < 0 || c > 0x10FFFF || (c >= 0xD800 && c <= 0xDFFF) {
+				continue
+			}
+			if c >= 0x3000 && i%step != off { // every edge below U+3000, a sample of the others
 				continue
 			}
 			for _, pr := range [][]rune{{'a', c}, {c, 'a'}, {c, 0x308}, {0x1F600, 0x200d, c}, {0x1F600, c, 0x200d, 0x1F600},
